@@ -22,7 +22,7 @@ for p in props:
         continue
     s = served[pid]
     only_bounded = s["proof"] == 0
-    cat = "exploration" if only_bounded else "proof"
+    cat = nt.get("category") or ("exploration" if only_bounded else "proof")
     checks.append({
         "property_id": pid,
         "quick_cmd": f"./check {pid} --tier quick",
@@ -32,7 +32,7 @@ for p in props:
         "engine": "pyvc",
         "level_claimed": {"category": cat, "text": nt.get("text", "contract obligations on the real functions discharged by SMT"),
                           "design_ref": nt.get("design_ref", "DESIGN.md §5 " + pid)},
-        "level_note": nt.get("level_note", "trusted base: A1-A12 of DESIGN.md §3 (listed per run in the evidence file)"),
+        "level_note": nt.get("level_note", notes.get("_default_note", "trusted base: A1-A12 of DESIGN.md §3 (listed per run in the evidence file)")),
         "technique": nt.get("technique", "contract-based deductive verification: AST symbolic execution of the real functions against "
                                          "sidecar contracts, VCs discharged by z3/cvc5") if not only_bounded else
         nt.get("technique", "bounded check of the real functions (stand-in, not counted as proved)"),
